@@ -208,12 +208,34 @@ def _same(a, b):
     return a == b
 
 
+_SHADOW_OPS = ['start', 'split', 'stop', 'resume', 'restart', 'elapsed', 'expired', 'stop']
+
+
+def _shadow(node):
+    """A second, unrelated watch driven by a fixed script between the steps of
+    the watch under test (only in the 'shadow' searches): objects must not
+    influence each other through the class or the module."""
+    from oslo_utils import timeutils
+    sh = getattr(node.ref, 'shadow', None)
+    if sh is None:
+        return
+    if sh is True:
+        sh = node.ref.shadow = timeutils.StopWatch(7)
+    op = _SHADOW_OPS[(len(node.hist) * 5 + 3) % len(_SHADOW_OPS)]
+    try:
+        _impl_apply(sh, op)
+    except RuntimeError:
+        pass
+
+
 def _step(node, action):
     step, op = action
     now = node.extra + step
     impl = copy.deepcopy(node.impl)
     ref = copy.deepcopy(node.ref)
     _CLOCK[0] = now
+    new_hist_node = seq.Node(None, ref, node.hist, None)
+    _shadow(new_hist_node)
     try:
         got = ('ret', _impl_apply(impl, op))
     except RuntimeError:
@@ -267,17 +289,20 @@ def _canon(node):
 
 
 def _explore(job):
-    duration, depth, origin = job
+    duration, depth, origin = job[:3]
+    shadow = len(job) > 3 and job[3]
     timeutils = _install_clock()
     counters = collections.Counter()
     fails = []
     _CLOCK[0] = origin
     ref = RefWatch(duration)
     ref.mono = True
+    if shadow:
+        ref.shadow = True
     root = seq.Node(timeutils.StopWatch(duration), ref, (), origin)
 
     def on_fail(node, action, problem):
-        fails.append({'duration': duration, 'origin': origin,
+        fails.append({'duration': duration, 'origin': origin, 'shadow': bool(shadow),
                       'history': [list(a) for a in node.hist + (action,)],
                       'problem': problem})
 
@@ -294,6 +319,8 @@ def run(ctx):
     jobs = [(d, depth, 100) for d in durations]
     # absolute clock readings 0 and negative ones: a watch must not care
     jobs += [(d, depth, o) for o in (0, -2) for d in (None, 2)]
+    # the same search with a second watch being used in between (instance isolation)
+    jobs += [(2, depth - 1, 100, True), (None, depth - 1, 0, True)]
     res = par.pmap(_explore, jobs)
     for duration, counters, fails, nstates in res:
         rep.counters.update({k: v for k, v in counters.items()
@@ -305,9 +332,11 @@ def run(ctx):
             rep.nontrivial('%r/%d/%d' % (duration, i, len(rep.distinct)))
         for f in fails:
             cls = '%s:%s' % (f['problem']['kind'], f['history'][-1][1])
+            if f.get('shadow'):
+                cls = 'with-a-second-watch-in-use:' + cls
             rep.fail(cls, dict(f['problem'], clock_origin=f.get('origin', 100)),
                      {'duration': duration, 'history': f['history'],
-                      'origin': f.get('origin', 100)})
+                      'origin': f.get('origin', 100), 'shadow': f.get('shadow', False)})
     # constructor clause: negative durations are refused
     from oslo_utils import timeutils
     for d in (-1, -0.5, -1e-9):
@@ -349,6 +378,8 @@ def replay(payload):
     ref.mono = True
     origin = payload.get('origin', 100)
     _CLOCK[0] = origin
+    if payload.get('shadow'):
+        ref.shadow = True
     node = seq.Node(timeutils.StopWatch(payload['duration']), ref, (), origin)
     trace = []
     for step, op in payload['history']:
